@@ -31,6 +31,18 @@ CHECKS.update({
             "Bounded solver-checked: for all literal values and all x, the (A, b) returned by LinearConstraints.from_spec satisfies A.x - b == lhs(x) - rhs(x) as read by an independent evaluator, rows in written order, for every expression tree of depth <=2 over {a, b, literal} in two renderings, '=' and ',' combinations and the three specification forms; anything else must be rejected.",
             "Depth <= 2 trees, 2 column names, <= 3 constraints; written divisors assumed non-zero; stubs: ast.literal_eval placeholders, numpy.zeros/eye/array -> object dtype.",
             "DESIGN.md §3 C16"),
+    "C04": ("SR", SR_TECH,
+            "Bounded solver-checked: for all numeric values, the spec attached to a model matrix reproduces it on the original data, yields the same names in the same order and the corresponding rows on every row map of <=3 training rows, encodes a training row mixed with fresh symbolic rows exactly as at training time (state not re-fitted), keeps fresh rows independent of their companions, emits all-zero columns for lost levels and behaves identically after a pickle round trip; per-transform inductive step from arbitrary recorded states (with C13/C12).",
+            "19 formulas over the built-in stateful/stateless transforms; spline formulas are trained on one concrete 7-row data set and followed up with 2 symbolic rows (values in [-2, 12]); lag and hashed excluded.",
+            "DESIGN.md §3 C04"),
+    "C05": ("SR", SR_TECH + "; sparse / pyarrow legs evaluated natively at one concrete point (labelled ground companions)",
+            "PARTIAL. Bounded solver-checked for the dense legs: four entry points x {pandas, numpy} x {pandas materializer, narwhals on a pandas frame} give the same column order and the same cells for all numeric values. Sparse output and narwhals-on-pyarrow are compared at one concrete generic point only (not solver-decided).",
+            "sparse and Arrow legs cannot carry symbolic cells (scipy.sparse / Arrow buffers): ground companions only; null policies are C06's subject.",
+            "DESIGN.md §3 C05"),
+    "C10": ("SR", "real specs produced by the SR pipeline; metadata lookups decided natively on the realised objects (CrossHair masks hash/eq defects), subset regeneration compared cell by cell as z3 terms (mostly reflexive; residual queries QF_NRA)",
+            "Bounded: for 14-term menu families (<=3 terms, incl. unsorted-factor, zero-column and multi-column terms) x intercept x rank mode x output: names = labels, term ranges contiguous/disjoint/ordered/covering, lookups by object / printed form / column name / variable agree with them, and spec.subset(S) regenerates the parent's columns for all numeric values.",
+            "Mostly ground facts on realised specs; the solver's share is small here (evidence reports solver_queries). Known findings: printed-form lookups of terms whose factors are not sorted.",
+            "DESIGN.md §3 C10"),
 })
 
 NOT_APPLICABLE = {
